@@ -36,3 +36,10 @@ def run(ctx):
         "errors.NewFrame is observed through Unwrap/Code/Func only",
     ]
     common.standard(ctx, "GopModel.Props.C03", "c03", 60, 1200, RULE, driver="drv_minigo")
+
+
+def replay(ctx, obj):
+    """Re-run one recorded scenario (regenerated from <seed>:<index>) through the real compiler and the model."""
+    from .. import replay as rp
+    ctx.driver_exe = "drv_minigo"
+    return rp.generic(ctx, obj)
